@@ -259,7 +259,8 @@ def run_proto_stream(P, tier, seed, budget, workdir, binaries, drv, flag):
         except subprocess.TimeoutExpired:
             rc, out = 124, "timeout"
         got = open(chunk_out).read().split("\n") if os.path.exists(chunk_out) else []
-        got = [g for g in got if g != ""] if rc == 0 else [g for g in got[:-1]] + ([got[-1]] if got and got[-1] == "HANG" else [])
+        if got and got[-1] == "":
+            got = got[:-1]  # the final newline; empty lines in between are empty traces
         impl += got
         done = start + len(got)
         if rc == 0 and done >= len(ops):
